@@ -139,30 +139,36 @@ func c03Compare(db *Database, res []SearchResult, ref map[int]float64, tag strin
 	}
 }
 
-// c03DB builds n commands from 2-letter symbolic words with varied field shapes.
+// c03DB builds n commands from a fixed vocabulary with deliberate collisions
+// (repeated words inside a field, across fields and across documents) plus a
+// few symbolic 2-letter words ("?") that may coincide with any of them.
 func c03DB(n int, shape int) *Database {
-	cmds := make([]Command, n)
-	for i := range cmds {
-		c := Command{Command: vWord("cmd", 2)}
-		switch (shape + i) % 3 {
-		case 0:
-			c.Description = vWord("d1", 2) + " " + vWord("d2", 2)
-			c.Keywords = []string{vWord("kw", 2)}
-		case 1:
-			c.Description = vWord("d1", 2)
-			c.Keywords = []string{vWord("k1", 2), vWord("k2", 2)}
-			c.Tags = []string{vWord("tag", 2)}
-		case 2:
-			c.Command = vWord("c1", 2) + " " + vWord("c2", 2)
-			c.Tags = []string{vWord("t1", 2), vWord("t2", 2)}
+	var all []Command
+	switch shape {
+	case 0:
+		all = []Command{
+			vCmd("aa bb", "cc aa", "dd,ee", "ff"),
+			vCmd("?", "cc ?", "aa", ""),
+			vCmd("gg", "aa aa ?", "", "cc,hh"),
 		}
-		vFill(&c)
-		cmds[i] = c
+	case 1:
+		all = []Command{
+			vCmd("?", "", "aa bb", ""),
+			vCmd("aa", "bb ?", "", "aa"),
+			vCmd("bb cc", "cc", "cc,?", "dd"),
+		}
+	default:
+		all = []Command{
+			vCmd("aa", "?", "", ""),
+			vCmd("aa", "aa", "aa", "aa"),
+			vCmd("?", "bb", "bb", ""),
+		}
 	}
-	return &Database{Commands: cmds}
+	return &Database{Commands: all[:n]}
 }
 
 func c03Scan(n, shape, qwords int, withBoost bool) {
+	vConcreteWords = false
 	db := c03DB(n, shape)
 	db.BuildUniversalIndex()
 	terms := make([]string, qwords)
@@ -198,3 +204,87 @@ func VerifHarness_C03_Scan2()      { c03Scan(2, verifIntRange("shape", 0, 2), 1,
 func VerifHarness_C03_Scan2q2()    { c03Scan(2, verifIntRange("shape", 0, 2), 2, false) }
 func VerifHarness_C03_Scan2Boost() { c03Scan(2, verifIntRange("shape", 0, 2), 1, true) }
 func VerifHarness_C03_Scan3()      { c03Scan(3, 0, 1, false) }
+
+// ---- staleness: the index and the re-ranker never lag behind the commands ----
+
+// c03Load mimics what every loader establishes.
+func c03Load(cmds []Command) *Database {
+	db := &Database{Commands: cmds}
+	db.BuildUniversalIndex()
+	db.buildTFIDFSearcher()
+	return db
+}
+
+// c03SameAnswer: got (from the database under test) equals want (from a freshly
+// built database over the same commands), position by position.
+func c03SameAnswer(gotDB *Database, got []SearchResult, wantDB *Database, want []SearchResult, tag string) {
+	verifAssert(len(got) == len(want), "C03: stale state changes the number of results ("+tag+")")
+	if len(got) != len(want) {
+		return
+	}
+	for k := range got {
+		gi, wi := -1, -1
+		for i := range gotDB.Commands {
+			if got[k].Command == &gotDB.Commands[i] {
+				gi = i
+			}
+		}
+		for i := range wantDB.Commands {
+			if want[k].Command == &wantDB.Commands[i] {
+				wi = i
+			}
+		}
+		verifAssert(gi >= 0, "C03: result is an entry of the current command list ("+tag+")")
+		verifAssert(gi == wi, "C03: same command at every rank as a freshly built database ("+tag+")")
+		verifAssert(c03SameFloat(got[k].Score, want[k].Score), "C03: same score as a freshly built database ("+tag+")")
+	}
+}
+
+func c03CopyCmds(src []Command) []Command {
+	out := make([]Command, len(src))
+	copy(out, src)
+	return out
+}
+
+func c03Stale(mode int, nlp bool, concrete bool) {
+	vConcreteWords, vFreshCounter = concrete, 0
+	a := c03DB(2, 0).Commands
+	b := c03DB(2, 1).Commands
+	q := vWord("q", 2)
+	opts := SearchOptions{Limit: 9, AllPlatforms: true, UseNLP: nlp}
+	db := c03Load(c03CopyCmds(a))
+	_ = db.SearchUniversal(q, opts) // a search precedes the change
+	var current []Command
+	switch mode {
+	case 0: // replacement through the caching wrapper
+		cdb := NewCachedDatabase(db)
+		current = c03CopyCmds(b)
+		cdb.UpdateDatabase(current)
+	case 1: // growth of the command list at run time
+		db.Commands = append(db.Commands, b[0])
+		current = db.Commands
+	case 2: // replacement by a list of a different size
+		db.Commands = c03CopyCmds(b[:1])
+		current = db.Commands
+	}
+	got := db.SearchUniversal(q, opts)
+	fresh := c03Load(c03CopyCmds(current))
+	want := fresh.SearchUniversal(q, opts)
+	c03SameAnswer(db, got, fresh, want, "history")
+	verifReach("compared")
+	if len(want) > 0 {
+		verifReach("nonempty")
+	}
+}
+
+// quick: concrete databases, symbolic query; thorough: symbolic words in the databases too
+func VerifHarness_C03_StaleUpdateQ()    { c03Stale(0, false, true) }
+func VerifHarness_C03_StaleGrowQ()      { c03Stale(1, false, true) }
+func VerifHarness_C03_StaleShrinkQ()    { c03Stale(2, false, true) }
+func VerifHarness_C03_StaleUpdateNLPQ() { c03Stale(0, true, true) }
+func VerifHarness_C03_StaleGrowNLPQ()   { c03Stale(1, true, true) }
+func VerifHarness_C03_StaleUpdate()     { c03Stale(0, false, false) }
+func VerifHarness_C03_StaleGrow()       { c03Stale(1, false, false) }
+func VerifHarness_C03_StaleShrink()     { c03Stale(2, false, false) }
+func VerifHarness_C03_StaleUpdateNLP()  { c03Stale(0, true, false) }
+func VerifHarness_C03_StaleGrowNLP()    { c03Stale(1, true, false) }
